@@ -84,8 +84,8 @@ var pureList = []pureSpec{
 	{"protocol", "VLAN", "Len"},
 	// straight-line encoders (round T1c): the byte-builder idiom, see encStmt and OFV/Go/Buf.lean; Props/C03d.lean proves the hand
 	// model equal to each of these. Also inside the subset (OFVEXTRACT_PROBE=1 lists them) but not yet tied by a theorem: InstrGotoTable,
-	// InstrWriteMetadata, the byte-array match payloads, the stats records, NXActionRegLoad/RegMove/Resubmit(Table)/OutputReg/CTClear/DecTTL/
-	// Controller, NXLearnSpecField, ByteArrayField, SwitchConfig, PortMod, protocol.VLAN.
+	// the stats records, NXActionRegLoad/RegMove/OutputReg/Controller, NXLearnSpecField, ByteArrayField, SwitchConfig, PortMod.
+	// protocol.VLAN is tied by Props/C09c.lean.
 	{"common", "Header", "MarshalBinary"}, {"common", "HelloElemHeader", "MarshalBinary"},
 	{"openflow13", "ActionHeader", "MarshalBinary"}, {"openflow13", "ActionOutput", "MarshalBinary"}, {"openflow13", "ActionSetqueue", "MarshalBinary"},
 	{"openflow13", "ActionGroup", "MarshalBinary"}, {"openflow13", "ActionMplsTtl", "MarshalBinary"}, {"openflow13", "ActionDecNwTtl", "MarshalBinary"},
@@ -99,6 +99,13 @@ var pureList = []pureSpec{
 	{"openflow13", "IcmpTypeField", "MarshalBinary"}, {"openflow13", "IcmpCodeField", "MarshalBinary"}, {"openflow13", "Uint16Message", "MarshalBinary"},
 	{"openflow13", "Uint32Message", "MarshalBinary"}, {"openflow13", "NXActionHeader", "MarshalBinary"}, {"openflow13", "NXActionConjunction", "MarshalBinary"},
 	{"openflow13", "ControllerID", "MarshalBinary"}, {"openflow13", "TLVTableMap", "MarshalBinary"},
+	{"openflow13", "InstrGotoTable", "MarshalBinary"}, {"openflow13", "InstrWriteMetadata", "MarshalBinary"},
+	{"openflow13", "NXActionCTClear", "MarshalBinary"}, {"openflow13", "NXActionDecTTL", "MarshalBinary"}, {"openflow13", "NXActionResubmit", "MarshalBinary"},
+	{"openflow13", "NXActionResubmitTable", "MarshalBinary"},
+	{"openflow13", "EthDstField", "MarshalBinary"},
+	{"openflow13", "EthSrcField", "MarshalBinary"}, {"openflow13", "Ipv6SrcField", "MarshalBinary"}, {"openflow13", "Ipv6DstField", "MarshalBinary"},
+	{"openflow13", "ArpXHaField", "MarshalBinary"},
+	{"protocol", "VLAN", "MarshalBinary"},
 }
 
 type unsupported struct{ msg string }
@@ -118,7 +125,7 @@ type ptr struct {
 	structs  map[string]*types.Struct
 	extra    []string // helper definitions translated on demand, to be emitted before the definition in progress
 	depth    int
-	methods  map[string]*methodInfo // methods already translated: Type.name -> shape
+	methods  map[string]*methodInfo       // methods already translated: Type.name -> shape
 	nested   map[string]map[string]string // struct name -> struct-valued fields that translated code reads -> Lean type
 	enc      bool                         // translating a straight-line encoder: func (r *T) MarshalBinary() ([]byte, error)
 	cursors  map[string]bool              // encoder mode: local ints used as write cursors (Nat)
